@@ -42,10 +42,14 @@ FamA == UNION {
 
 \* B (C11): two waiters, two pushes before the first woken waiter has taken its element (held at after_wake,
 \* or both pushes inside one EXEC): both waiters must be served, nothing is left over
+\* (in the EXEC variant every waiter takes one element: both are woken while EXEC still holds the data store, and the
+\*  order in which the two woken goroutines then retry is up to the Go scheduler - a waiter that takes two elements
+\*  would make the outcome depend on it)
 FamB == UNION {
-   { <<S0, << <<1, Gate("after_wake")>>, <<1, b1>>, <<2, b2>>, <<3, PushA>>, <<3, PushA>>, <<1, Release>>, <<3, LLenA>> >> >>,
-     <<S0, << <<1, b1>>, <<2, b2>>, <<3, C("MULTI", <<>>)>>, <<3, PushA>>, <<3, PushA>>, <<3, C("EXEC", <<>>)>>, <<3, LLenA>> >> >> }
+   { <<S0, << <<1, Gate("after_wake")>>, <<1, b1>>, <<2, b2>>, <<3, PushA>>, <<3, PushA>>, <<1, Release>>, <<3, LLenA>> >> >> }
    : b1 \in {BLPop0, BLMPop}, b2 \in {BLPop0, BRPop2, BLMove} }
+   \cup { <<S0, << <<1, b1>>, <<2, b2>>, <<3, C("MULTI", <<>>)>>, <<3, PushA>>, <<3, PushA>>, <<3, C("EXEC", <<>>)>>, <<3, LLenA>> >> >>
+          : b1 \in {BLPop0, BRPop2}, b2 \in {BLPop0, BRPop2, BLMove} }
    \* the first waiter is woken, its element is taken by somebody else before it looks, it goes on waiting: it is
    \* still the longest waiter, and the next pushes serve it first, then the second waiter
    \cup { <<S0, << <<1, Gate("after_wake")>>, <<1, b1>>, <<2, BLPop0>>, <<3, PushA>>, <<3, C("LPOP", <<ka>>)>>, <<1, Release>>,
